@@ -10,7 +10,9 @@ import time as _realtime
 T_FAIR = 1.0          # fairness bound (logical seconds): an enabled task runs before the clock moves past enabled_since+T
 STEP_CAP = 30000
 POLL_JUMP = 3         # unchanged sleep cycles before a sleeper is treated as a poller for clock jumps
-POLL_LIVELOCK = 200   # unchanged sleep cycles of every remaining sleeper before the livelock verdict
+POLL_LIVELOCK = 200
+STREAK_MAX = 400      # default policy: forced round-robin switch after this many non-blocking points of one task
+SPIN_LIVELOCK = 6000  # steps without any kernel-state change while a single task keeps running   # unchanged sleep cycles of every remaining sleeper before the livelock verdict
 
 W = None              # the current world (one per case)
 
@@ -69,6 +71,7 @@ class Task:
         self.timed_out = False
         self.enabled_since = w.now
         self.npoints = 0
+        self.streak = 0
         self.what = None
         self.sleeping = False
         self.sleep_cycles = 0
@@ -100,7 +103,7 @@ class Task:
         self.thread_obj = None
         w.version += 1
         w._leave(self, finished=True)
-        _park()
+        # a finished task's thread ends here (only killed/blocked tasks stay parked)
 
 
 class _ProcExit(BaseException):
@@ -153,6 +156,8 @@ class World:
         self.timer_fire_hook = None   # callable(task) -> bool : may veto firing (known-finding exclusion)
         self.kill_veto = None         # callable(proc) -> reason|None
         self.unpickle_proc = None
+        self._v_seen = -1
+        self._v_step = 0
         self._vetoed = 0
 
     # ------------------------------------------------------------------ helpers
@@ -213,6 +218,8 @@ class World:
         me = _rt.current_thread()
         for t in self.tasks:
             if t.real is me:
+                if t.state == "done":
+                    return
                 _park()
 
     # ------------------------------------------------------------------ scheduling points
@@ -237,9 +244,29 @@ class World:
                 self.excluded[reason] = self.excluded.get(reason, 0) + 1
         if self.atomic_depth:
             return
+        if self.version != self._v_seen:
+            self._v_seen = self.version
+            self._v_step = self.steps
         c = self._choice()
         if c is None:
+            t.streak += 1
+            if t.streak < STREAK_MAX:
+                return
+            # fairness of the default policy: a task that never blocks must not starve the others
+            t.streak = 0
+            t.enabled_since = self.now
+            others = [a for a in self._actions(t) if a[1] is not t]
+            if not others:
+                if self.steps - self._v_step > SPIN_LIVELOCK:
+                    self.cur = None
+                    self.stop("livelock", [f"{t.name}@{t.proc.pid}:spinning:{where(t)}"])
+                return
+            runs = [a for a in others if a[0] == "run"]
+            if not runs:
+                return
+            self._perform(runs[0], t)
             return
+        t.streak = 0
         t.enabled_since = self.now
         acts = self._actions(t)
         if len(acts) <= 1:
